@@ -153,6 +153,7 @@ type Run struct {
 type deliveredTx struct {
 	raw    []byte
 	direct sdk.Msg
+	sig    sdk.Msg
 }
 
 func (r *Run) Violate(property, check, signature, format string, args ...interface{}) {
@@ -395,7 +396,9 @@ func (r *Run) crashAndRecover(b *Block) {
 		return
 	}
 	for _, bz := range txs {
-		if bz.direct != nil {
+		if bz.sig != nil {
+			nc.DirectSig(bz.sig)
+		} else if bz.direct != nil {
 			nc.Direct(bz.direct)
 		} else {
 			nc.DeliverTx(bz.raw)
